@@ -397,6 +397,33 @@ pub fn chain(rng: &mut Rng, kind: usize, depth: usize, acts: &[Act], allow_pool:
     NetCfg::plain(input, layers)
 }
 
+/// Replaces some shape-preserving layers of a chain by a feedback block (no internal skips)
+/// whose body is that layer, so that blocks occur as sources / targets of connections.
+pub fn wrap_blocks(rng: &mut Rng, cfg: &mut NetCfg, p: f64) {
+    let shapes = match cfg.shapes() {
+        Ok(s) => s,
+        Err(_) => return,
+    };
+    for i in 0..cfg.layers.len() {
+        let same = shapes[i].0 == shapes[i].1 && !shapes[i].2;
+        let plain = matches!(cfg.layers[i], LCfg::Dense { .. } | LCfg::Conv { .. } | LCfg::Deconv { .. });
+        // a spatial block must not follow a flat tensor (the block asserts its input shape)
+        let flat_before = i > 0 && shapes[i - 1].1.is_flat() != shapes[i].0.is_flat();
+        if same && plain && !flat_before && rng.chance(p) {
+            let body = vec![cfg.layers[i].clone()];
+            cfg.layers[i] = LCfg::Feedback { body, loops: rng.range(1, 2), inskips: false, outskips: false, acc: Acc::Mean };
+        }
+    }
+    if cfg.shapes().is_err() {
+        // undo everything if the wrapped network is not valid
+        for l in cfg.layers.iter_mut() {
+            if let LCfg::Feedback { body, .. } = l {
+                *l = body[0].clone();
+            }
+        }
+    }
+}
+
 /// Inserts a shape-preserving feedback block (no internal skips, mean coupling) at a random
 /// position before the last layer; returns false if that made the network invalid.
 pub fn insert_block(rng: &mut Rng, cfg: &mut NetCfg, max_loops: usize) -> bool {
